@@ -133,6 +133,9 @@ type sched struct {
 
 var active *sched
 
+// Instrumented is set to "yes" (go build -ldflags -X) by the builds that compile the rewritten /repo sources.
+var Instrumented = "no"
+
 // Active reports whether a controlled execution is in progress.
 //
 //go:norace
